@@ -222,7 +222,7 @@ def main():
     manifest = {
         'version': 1,
         'setup_cmd': '/venv/bin/pip install -q --no-index --find-links /opt/veriftools/wheels '
-                     'hypothesis jsonschema',
+                     'hypothesis jsonschema atheris',
         'hooks': {
             'guard': 'ELECTRUMX_VERIF',
             'enable': 'none needed: the harness intercepts from outside (event loop subclass, '
@@ -236,7 +236,9 @@ def main():
         'engines': [{'name': 'pbt', 'path': '/verif/pbt',
                      'serves_properties': sorted(CHECKS),
                      'kind_free_text': 'Hypothesis-driven generators + explicit oracles over the '
-                                       'real electrumx code under a deterministic event loop'}],
+                                       'real electrumx code under a deterministic event loop; '
+                                       'coverage-guided sub-checks (Atheris/libFuzzer child '
+                                       'process, pbt/fuzz.py) where a check names FUZZ_TARGETS'}],
         'checks': checks,
         'notes': 'Runner: python -m pbt.run <ID> --tier quick|thorough (VERIF_SEED, VERIF_TIER, '
                  'VERIF_REPO honoured). Known findings: /verif/known_findings.txt. Replays: '
